@@ -70,6 +70,18 @@ CHECKS['C03'] = dict(tech='catalogue enumeration + Hypothesis netlists with adve
              text='Text returned by the generator for every catalogue block (exhaustive small widths + sampled), for hierarchical netlists with reserved-word and prefix-colliding wire/port/instance names, for pairs of instances whose module names may coincide, and for a corpus of sequential/behavioural/emulation blocks must parse in a grammar derived from the emitters, declare every identifier once, use no reserved word, define every instantiated module once, connect existing ports with equal widths, give every net one driver of the right kind, select only vectors, and elaborate; objects emitted under one name must have equal headers. Exploration; two known findings are excluded/classified by signature and replayed.',
              note='Trusted: pbt/vlog.py (lexer/parser/elaborator, self-tested against hand-derived IEEE 1364 vectors) and pbt/vcheck.py.',
              ref='DESIGN.md 2/C03')
+CHECKS['C01'] = dict(tech='differential simulation: py4hw cycle simulator vs an independent IEEE-1364 Verilog-subset interpreter on the emitted text, over Hypothesis-generated designs (every catalogue block + hierarchical netlists + hand-written bodies) and input sequences from power-up',
+             text='For every catalogue block (a fixed number of generated configurations and input histories per block, so each inline emitter / built-in body / verilogBody is hit), for generated hierarchical netlists (shared named modules, per-instance modules, fan-out, registers) and for the hand-written bodies and emulation blocks, every top-level output is compared on every cycle from power-up between the simulator and the interpreter running the returned text; a mismatch is localised to the first differing internal net. Exploration; one known finding (aliased ports on a shared module) excluded by construction and replayed.',
+             note='Trusted: pbt/vlog.py (self-tested before every run), assumption A1 (uninitialised regs are 0). Undefined Verilog results (division by zero) discard the run; ill-formed text is left to C03.',
+             ref='DESIGN.md 2/C01')
+CHECKS['C02'] = dict(tech='grammar-based program generation (Hypothesis) of behavioural classes rendered with minimal parentheses, differential execution of the live Python object vs the Verilog interpreter on the transpiled module (outputs + integer state every cycle), domain guard on the emitted expression tree, unsupported-construct programs, library corpus',
+             text='Generated clock/propagate bodies over the supported subset are transpiled; the emitted module must parse, be well formed and produce the same outputs and state trajectory as the Python method for every generated input sequence inside the domain (the guard evaluates every emitted sub-expression sized and unbounded and cuts the sequence when they differ). Programs with one unsupported construct must be refused or behave identically; the library\'s own behavioural blocks (UART, HIL codec, Vitis FSMs, AutoReset) are a fixed corpus. Exploration; three known transpiler findings are classified by trigger and replayed.',
+             note='Trusted: pbt/vlog.py incl. its domain guard; assumption A1; generated classes follow the library conventions.',
+             ref='DESIGN.md 2/C02')
+CHECKS['C19'] = dict(tech='Hypothesis histories of generation requests interleaved with simulation steps over 1..3 live circuits, twin-circuit purity oracle, first-answer repeatability oracle on canonicalised text',
+             text='Requests (whole hierarchy / single module, for the top or a sub-block, from a generator created for the target, an ancestor or the system, fresh or reused) are interleaved with clk steps and with requests on other circuits; a twin circuit that is never generated must agree on every wire after every step and the structure (children, ports, wires, sources, sinks) must be unchanged; every answer must equal the first answer to the same (circuit, class, target) up to declaration order, including requests made from different ancestors. Exploration (sampled).',
+             note='Trusted: pbt/vlog.py parser for canonicalisation; instance-unique suffixes are stable for live objects.',
+             ref='DESIGN.md 2/C19')
 NOT_APPLICABLE = {}
 
 def main():
